@@ -5,7 +5,8 @@ CONSTANTS
   BaseSeq <- BasesAll
   WrapSeq <- WrapsAll
   RenSeq <- RenCat
-  DocSet <- DocBoth
+  DocSet <- DocAll
+  IntFull = FALSE
   Family = "rot"
   MaxFields = 4
   MaxDepth = 3
